@@ -133,6 +133,10 @@ def compare_outcome(want: Outcome, obs) -> str | None:
             return f"expected unrecognized ({want.why}), observed {tag} {obs[1] if tag == 'raised' else ''}"
         return compare_items(want.items, obs[1])
     if want.kind == "raised":
+        if want.overrun and tag == "parsed":
+            # a field that extends past the end of the packet: the library may fail, or deliver the packet with its cursor beyond the
+            # end (which the generator then flags; C14 decides that).  The values are not judged.
+            return None if obs[2] > want.consumed else f"field extends past the end of the packet but the cursor ({obs[2]}) does not show it"
         if tag != "raised":
             return f"expected a failure ({want.why}), observed {tag}"
         if want.exc is not None and not any(n in obs[1] for n in want.exc):
